@@ -262,6 +262,13 @@ def c17(tier, repo=None, only_cases=None):
             vlib.go_must_run(code, output, "C17 replay")
             if FAM[prop]["marker"] % len(cs) not in output:
                 raise Inconclusive("C17 replay: harness did not report all cases\n" + output[-3000:])
+        seen = set(index_cases(lines).keys())
+        if len(seen) < len(cs):     # the harness stops replaying after 20 hanging cases (each is an observation `hang`)
+            hangs = sum(1 for ln in lines if ln.startswith('{"ev":"hang"'))
+            if not hangs:
+                raise Inconclusive("C17 replay: %d of %d cases observed and no hang recorded" % (len(seen), len(cs)))
+            log("  note: %d cases hang; the harness stopped replaying after them (%d of %d cases observed)" % (hangs, len(seen), len(cs)))
+            cs = [c for c in cs if c["id"] in seen]
         return lines, wall, crashes, cs
 
     lines, wall_go, crashes, cases = run_cases(cases)
@@ -322,6 +329,7 @@ def c17(tier, repo=None, only_cases=None):
         vlib.write_evidence(prop, tier, "model_checking", cov, assumptions=[
         "tools are the harness's deterministic functions name(args); a streaming tool yields 1-2 chunks; arguments are distinct per call",
         "a panic of the first (inline) tool when ToolsNode is called outside a graph reaches the caller by construction: not judged",
+        "a case still running 4 s after its call started is recorded as `hang` (the gates make a case take microseconds)",
         "with several failing tools the error of any one of them is accepted; the error is identified by errors.As or by its text",
         "TLC, the Json community module and the Go harness are trusted"], wall_s=time.time() - t0, violations=n_new)
     log("[%s] %s: %d cases validated, %d distinct non-trivial, %d rejected (%d confirmed, %d known), %.0fs" % (
